@@ -14,11 +14,20 @@ func TimeOfDay(ctx *expr.Context, input system.Collection, args ...expr.Expressi
 // Today returns the current date as a system.Date object.
 func Today(ctx *expr.Context, input system.Collection, args ...expr.Expression) (system.Collection, error) {
 	dateString := ctx.Now.Format("2006-01-02")
-	return system.Collection{system.MustParseDate(dateString)}, nil
+	// A year outside 0001..9999 (evalopts.OverrideTime) has no FHIRPath date literal.
+	date, err := system.ParseDate(dateString)
+	if err != nil {
+		return nil, err
+	}
+	return system.Collection{date}, nil
 }
 
 // Now returns the current time as a system.DateTime object.
 func Now(ctx *expr.Context, input system.Collection, args ...expr.Expression) (system.Collection, error) {
 	dateTimeString := ctx.Now.Format("2006-01-02T15:04:05.000Z07:00")
-	return system.Collection{system.MustParseDateTime(dateTimeString)}, nil
+	dateTime, err := system.ParseDateTime(dateTimeString)
+	if err != nil {
+		return nil, err
+	}
+	return system.Collection{dateTime}, nil
 }
